@@ -60,11 +60,11 @@ def check_context_isolation(A, R: Report, rid: str):
     # accumulators of merge_contexts
     acc = {}
     for n in A.typer.own_nodes(fmc):
-        if isinstance(n, ast.Assign) and len(n.targets) == 1 and isinstance(n.targets[0], ast.Name):
+        if (isinstance(n, ast.Assign) and len(n.targets) == 1 and isinstance(n.targets[0], ast.Name)) or (isinstance(n, ast.AnnAssign) and isinstance(n.target, ast.Name) and n.value is not None):
             v = n.value
             fresh = isinstance(v, (ast.Dict, ast.List)) and not (getattr(v, 'keys', None) or getattr(v, 'elts', None)) or (isinstance(v, ast.Call) and src(v.func) in ('dict', 'defaultdict', 'list', 'OrderedDict') and
                                                                                                                          all(src(a) in ('dict', 'list') for a in v.args))
-            acc[n.targets[0].id] = fresh
+            acc[(n.targets[0] if isinstance(n, ast.Assign) else n.target).id] = fresh
     mutated = set()
     alias = []
     for lp in loops:
@@ -337,15 +337,19 @@ def run(A, R: Report, thorough: bool):
             R.violation('R09.6', 'Chain._create_tasks._register_task', key_of('no-conflict-raise'), 'two configs declaring the same task in one namespace are no longer reported', where=where(freg))
         for r in rs:
             facts = [(a, pol) for a, pol in cfg.facts_at(r.id)]
-            texts = [(src(a), pol) for a, pol in facts]
-            present = any(' in tasks' in t and pol for t, pol in texts)
-            ident = any(isinstance(a, ast.Compare) and len(a.ops) == 1 and ((isinstance(a.ops[0], ast.IsNot) and pol) or (isinstance(a.ops[0], ast.Is) and not pol)) and 'get_config()' in src(a) for a, pol in facts)
-            by_repr = any(isinstance(a, ast.Compare) and 'repr_name' in src(a) and ((isinstance(a.ops[0], ast.NotEq) and pol) or (isinstance(a.ops[0], ast.Eq) and not pol)) for a, pol in facts)
-            by_name = any(isinstance(a, ast.Compare) and ('.name' in src(a) or '.fullname' in src(a)) and 'repr_name' not in src(a) for a, pol in facts)
-            if present and (ident or by_repr):
+            texts = facts_text(A, freg, cfg, r.id)
+            present = any(' in tasks' in t and ' not in ' not in t and pol for t, pol in texts) or any(' not in tasks' in t and not pol for t, pol in texts)
+            rel = [(t, pol, a) for (t, pol), (a, _) in zip(texts, facts) if isinstance(a, ast.Compare) and len(a.ops) == 1 and 'get_config()' in t]
+            ident = any(((isinstance(a.ops[0], ast.IsNot) and pol) or (isinstance(a.ops[0], ast.Is) and not pol)) and t.count('get_config()') == 2 and not any(c_ in t for c_ in ('str(', "f'", 'f"', 'repr(', '.name', '.fullname'))
+                        for t, pol, a in rel)
+            by_repr = any('repr_name' in t and ((isinstance(a.ops[0], ast.NotEq) and pol) or (isinstance(a.ops[0], ast.Eq) and not pol)) for t, pol, a in rel)
+            other_cmp = [t for t, pol, a in rel if not isinstance(a.ops[0], (ast.Is, ast.IsNot)) and 'repr_name' not in t]
+            if present and (ident or by_repr) and not other_cmp:
                 R.ok('R09.6', 'Chain._create_tasks._register_task', 'conflict = same task name from a different config object', where=where(freg, r.ast))
-            elif by_name:
-                R.violation('R09.6', 'Chain._create_tasks._register_task', key_of('conflict-by-name', [t for t, _ in texts]), 'the conflict test compares config *names*: two different config files with the same name declaring the same task silently override each other', where=where(freg, r.ast))
+            elif other_cmp or any(isinstance(a.ops[0], (ast.Is, ast.IsNot)) for t, pol, a in rel):
+                R.violation('R09.6', 'Chain._create_tasks._register_task', key_of('conflict-not-identity', other_cmp[:1] or [t for t, _, _ in rel][:1]),
+                            f'the conflict test `{(other_cmp or [t for t, _, _ in rel])[0][:100]}` compares a rendering / name of the two configs instead of their identity: two different config files with the same name declaring the same task silently override each other',
+                            where=where(freg, r.ast))
             else:
                 R.undecided('R09.6', 'Chain._create_tasks._register_task', f'conflict condition not recognised: {texts}', where=where(freg, r.ast))
 
